@@ -34,6 +34,8 @@ func (o conOp) String() string {
 		return fmt.Sprintf("Handle(%q,[%s])", o.P, qjoin(o.Ms))
 	case "remove":
 		return fmt.Sprintf("Remove(%q,[%s])", o.P, qjoin(o.Ms))
+	case "phandle":
+		return fmt.Sprintf("Prefix(/pp,D).Handle(%q,callers[:1]...,[%s])", o.P, qjoin(o.Ms))
 	case "clean":
 		return "Clean()"
 	case "pclean":
@@ -53,6 +55,15 @@ func (o conOp) do(r *Router) string {
 	switch o.K {
 	case "handle":
 		if v, bad := Guard(func() { r.Handle(o.P, hv.Route(HID(o.P, o.Ms)), nil, o.Ms...) }); bad {
+			return fmt.Sprintf("panic(%s)", PanicClass(v))
+		}
+		return "ok"
+	case "phandle":
+		// through a Prefix that has a middleware of its own, handing over the caller's list the way an application
+		// does: a slice of one longer list (spare capacity behind it) that other goroutines pass as well
+		if v, bad := Guard(func() {
+			r.Prefix("/pp", hv.MW{Name: "D"}).Handle(o.P, hv.Route(HID("/pp"+o.P, o.Ms)), c06Callers[:1], o.Ms...)
+		}); bad {
 			return fmt.Sprintf("panic(%s)", PanicClass(v))
 		}
 		return "ok"
@@ -99,6 +110,24 @@ func (o conOp) do(r *Router) string {
 		return s
 	}
 	return "?"
+}
+
+// c06Callers is the caller-owned middleware list of the "phandle" operations, made afresh for every execution:
+// one element in use, room for three more. mux may read it; the room behind it belongs to the caller.
+var c06Callers []types.Middleware[*hv.H]
+
+func c06NewCallers() {
+	c06Callers = make([]types.Middleware[*hv.H], 1, 4)
+	c06Callers[0] = hv.MW{Name: "M1"}
+}
+
+func c06CallersWritten() string {
+	for i, m := range c06Callers[:cap(c06Callers)] {
+		if i >= 1 && m != nil {
+			return fmt.Sprintf("slot %d behind the caller's one-element list now holds %v", i, m)
+		}
+	}
+	return ""
 }
 
 type scenario struct {
@@ -153,6 +182,9 @@ var (
 	w8  = conOp{K: "remove", P: "/posts/author", Ms: []string{"GET"}} // last method of an otherwise untouched route
 	w9  = conOp{K: "handle", P: "/n/{id}", Ms: []string{"GET"}}       // w9 and w10 are ambiguous with each other:
 	w10 = conOp{K: "handle", P: "/n/{name}", Ms: []string{"GET"}}     // sequentially exactly one of them is rejected
+	w11 = conOp{K: "phandle", P: "/a", Ms: []string{"GET"}}           // w11, w12: two goroutines registering below the same
+	w12 = conOp{K: "phandle", P: "/b", Ms: []string{"GET"}}           // prefix with the same caller-owned middleware list
+	r13 = conOp{K: "serve", Req: hv.Req{Method: "GET", Path: "/pp/a"}}
 	r1  = conOp{K: "serve", Req: hv.Req{Method: "GET", Path: "/posts/author"}}
 	r2  = conOp{K: "serve", Req: hv.Req{Method: "GET", Path: "/posts/7"}}
 	r3  = conOp{K: "serve", Req: hv.Req{Method: "GET", Path: "/t"}}
@@ -197,6 +229,9 @@ func c06Scenarios(quick bool) []scenario {
 		for _, v := range wseq[i:12] {
 			out = append(out, scenario{Name: name(w, v), Cfg: cfg, Setup: setup, Threads: [][]conOp{w, v}, Bound: bound2, Prop: "C06"})
 		}
+	}
+	for _, ts := range [][][]conOp{{{w11}, {w12}}, {{w11}, {w11}}, {{w11}, {r13}}, {{w11, r13}, {w12}}, {{w11}, {w1}}, {{w11}, {r6}}} {
+		out = append(out, scenario{Name: name(ts...), Cfg: cfg, Setup: setup, Threads: ts, Bound: bound2, Prop: "C06"})
 	}
 	// readers only: whatever the read paths build lazily under the read lock is shared between them
 	for i, a := range rseq[:12] {
@@ -296,7 +331,15 @@ func runScenario(raw json.RawMessage) (any, error) {
 		for _, ops := range sc.Threads {
 			for _, op := range ops {
 				base := heldLocks() // process-wide counter: compare with its value before the call
+				c06NewCallers()
 				op.do(r0)
+				if w := c06CallersWritten(); w != "" {
+					out.Viols = append(out.Viols, explore.Violation{Property: sc.Prop, Clause: sc.Prop + ".fault", Class: "caller-memory-written", Config: sc.Cfg.String(), History: []string{sc.Name},
+						Probe: op.String() + " (run alone, sequentially)", Observed: w, Expected: "the caller's slice is read, never appended into",
+						Replay: explore.ItemReplay("c06/scenario", sc)})
+					out.Execs = 1
+					return out, nil
+				}
 				if n := heldLocks() - base; n != 0 {
 					out.Viols = append(out.Viols, explore.Violation{Property: sc.Prop, Clause: sc.Prop + ".deadlock", Class: "lock-leaked", Config: sc.Cfg.String(), History: []string{sc.Name},
 						Probe: op.String() + " (run alone, sequentially)", Observed: fmt.Sprintf("%d router lock(s) still held after the call returned", n), Expected: "every lock released",
@@ -314,6 +357,7 @@ func runScenario(raw json.RawMessage) (any, error) {
 			return r
 		}
 		r, _, _ := buildHistory(sc.Cfg, sc.Setup)
+		c06NewCallers()
 		var res seqResult
 		res.results = make([]string, len(flat))
 		for _, k := range order {
@@ -332,6 +376,7 @@ func runScenario(raw json.RawMessage) (any, error) {
 				return explore.ExecResult{Viols: []explore.Violation{{Property: sc.Prop, Clause: sc.Prop + ".setup", Class: "setup-panic", Observed: perr, Expected: "setup succeeds"}}}
 			}
 			types.VerifDrainPool()
+			c06NewCallers()
 			calls := make([]callRec, len(flat))
 			bodies := make([]func(), n)
 			k0 := 0
@@ -388,6 +433,9 @@ func runScenario(raw json.RawMessage) (any, error) {
 				if e := explore.TakePanic(t); e != nil {
 					return mk(sc.Prop+".fault", "thread-panic:"+shortPanic(e), fmt.Sprintf("thread %d panicked: %v", t, e), "no runtime fault")
 				}
+			}
+			if w := c06CallersWritten(); w != "" {
+				return mk(sc.Prop+".fault", "caller-memory-written", w, "the caller's slice is read, never appended into")
 			}
 			var obs []string
 			for _, c := range calls {
